@@ -95,6 +95,11 @@ def surf_case_st(draw):
         c["formula"] = "VelVel"
     c["fder"] = draw(st.integers(1, 3))
     c["select"] = draw(st.one_of(st.none(), st.lists(st.integers(0, 5), min_size=1, max_size=3, unique=True)))
+    # how the extended Fermi grid of the reference Fermi-sea calculator is written down: from its own origin
+    # (E0 + de*i) or by extending the surface grid with the code's own spacing rule (Ef[0] - i*(Ef[1]-Ef[0]), ...);
+    # the two differ in the last bits, and only the second makes both calculators ask for bit-identical windows
+    c["extmode"] = draw(st.sampled_from(["origin", "extend", "extend"]))
+    c["order"] = draw(st.sampled_from(["surf-first", "sea-first"]))
     return c
 
 
@@ -334,6 +339,9 @@ def check_surface(case):
     E0, de, n = ref.fermi_grid(x)
     Ef = E0 + de * np.arange(n)
     Eext = E0 + de * np.arange(-x, n + x)
+    if case.get("extmode") == "extend" and n >= 2:
+        dEF = Ef[1] - Ef[0]
+        Eext = np.concatenate([[Ef[0] - i * dEF for i in range(x, 0, -1)], Ef, [Ef[-1] + i * dEF for i in range(1, x + 1)]])
     fname = case["formula"]
     F = get_formula(fname)
     div, fft = bgrid.factorisation(ref.N, case["sel"])
@@ -348,8 +356,10 @@ def check_surface(case):
         return calc.static.StaticCalculator(Efermi=Ef.copy(), Formula=F, fder=nder, degen_thresh=ref.thr,
                                             select_bands=None if sel is None else np.array(sel, dtype=int), **kw)
     calcs = {"surf": surf(select), "sea": calc.static.StaticCalculator(Efermi=Eext.copy(), Formula=F, fder=0,
-                                                                        degen_thresh=ref.thr),
-             "TAB": calc.TabulatorAll({"kres": surf(select, k_resolved=True)}, mode="grid", save_mode=SAVE_MODE)}
+                                                                        degen_thresh=ref.thr)}
+    if case.get("order") == "sea-first":     # all calculators of one run() share the per-K data object, in dict order
+        calcs = {"sea": calcs["sea"], "surf": calcs["surf"]}
+    calcs["TAB"] = calc.TabulatorAll({"kres": surf(select, k_resolved=True)}, mode="grid", save_mode=SAVE_MODE)
     if select is not None:
         calcs["all"] = surf(None)
         if compl:
@@ -373,6 +383,14 @@ def check_surface(case):
         _cmp("surface-vs-fd-of-sea", f"{fname} fder={nder} thr={ref.thr} dE={de}", got, _fd(sea, nder, de, axis=0),
              rtol, floor)
     _cmp("surface-vs-model", f"{fname} fder={nder} thr={ref.thr} select={select}", got, model.mean(axis=0), rtol, floor)
+    # the Fermi-sea calculator evaluated in the SAME run (same per-K data objects as the surface calculators, in the
+    # drawn order) must give what it gives when it is the only calculator of a run: its value is defined by the
+    # formula and the occupied states alone (a constant offset would cancel in the finite differences above)
+    with scratch_dir() as d2:
+        res_alone, _ = bgrid.run_grid(ref.system, div, fft, {"sea": calc.static.StaticCalculator(
+            Efermi=Eext.copy(), Formula=F, fder=0, degen_thresh=ref.thr)}, d2)
+    _cmp("sea-in-shared-run-vs-alone", f"{fname} thr={ref.thr} order={case.get('order')} ext={case.get('extmode')}", sea,
+         np.array(res_alone.results["sea"].data), 1e-12, 1e-13 * max(1.0, 1.0 / ref.V))
     _cmp("kres-vs-model", f"{fname} fder={nder} k-resolved rows select={select}", gotk, model, rtol, floor)
     _cmp("kres-sum-vs-unresolved", f"{fname} fder={nder}", gotk.mean(axis=0), got, rtol, floor)
     if select is not None:
